@@ -283,7 +283,7 @@ func replayC03(run *Run) {
 		run.Inconclusive("decode: %v", err)
 	}
 	q := Req{O: ev.O, R: ev.R, U: ev.U, Ctx: ev.Ctx}
-	v1 := &CheckEv{Eng: "v1:default", O: q.O, R: q.R, U: q.U, Ctx: q.Ctx}
+	v1 := &CheckEv{Eng: "v1:default", O: q.O, R: q.R, U: q.U, Ctx: q.Ctx, Ctxt: ev.Ctxt}
 	v.Base.RunCheck(ctx, v1, ts, mg)
 	was := ev.Got
 	if ev.Eng == "server:v2" {
